@@ -226,3 +226,83 @@ func VerifC04Devices(steps, incremental, withSecrets int) {
 	}
 	verif_reach("C04.devices.ok")
 }
+
+// VerifC04Alias: a contact group of A and B. Each side announces its device and then sends its alias key; `steps` of these
+// four operations are performed in a free interleaving by the real store functions of the two sides (an alias key is only
+// sent by a device that has announced itself). Indexes with A's identity that receive the entries (a) in one pass under a
+// free arrival order, (b) in two batches (free subset first), (c) one entry at a time, all report the same alias state,
+// and it is the one the history implies: own alias sent iff A sent it, the other side's alias iff B sent it.
+func VerifC04Alias(steps int) {
+	ctx := verif_background()
+	sa := verifSecretStore("A")
+	sb := verifSecretStore("B")
+	ka, err := sa.GetAccountPrivateKey()
+	verif_assume(err == nil)
+	kb, err := sb.GetAccountPrivateKey()
+	verif_assume(err == nil)
+	g, err := sa.GetGroupForContact(kb.GetPublic())
+	verif_assume(err == nil)
+	gb, err := sb.GetGroupForContact(ka.GetPublic())
+	verif_assume(err == nil && verif_bytesEq(g.PublicKey, gb.PublicKey))
+	mA := verifMetadataStore(sa, g)
+	mB := verifMetadataStore(sb, g)
+	mdA, err := sa.GetOwnMemberDeviceForGroup(g)
+	verif_assume(err == nil)
+	global := verif_newLog()
+	sync := func() {
+		for _, m := range []*MetadataStore{mA, mB} {
+			for _, e := range verif_storeLog(&m.BaseStore).Values().Slice() {
+				verif_logShare(global, e)
+			}
+		}
+	}
+	var annA, annB, aliasA, aliasB bool
+	for i := 0; i < steps; i++ {
+		op := verif_anyInt("op")
+		verif_assume(op >= 0 && op <= 3)
+		var err error
+		switch op {
+		case 0:
+			verif_assume(!annA)
+			_, err = mA.AddDeviceToGroup(ctx)
+			annA = true
+		case 1:
+			verif_assume(annA && !aliasA)
+			_, err = mA.ContactSendAliasKey(ctx)
+			aliasA = true
+		case 2:
+			verif_assume(!annB)
+			_, err = mB.AddDeviceToGroup(ctx)
+			annB = true
+		default:
+			verif_assume(annB && !aliasB)
+			_, err = mB.ContactSendAliasKey(ctx)
+			aliasB = true
+		}
+		verif_assert(err == nil, "C04.alias: the operation is appended")
+		sync()
+	}
+	wantOther := []byte(nil)
+	if aliasB {
+		pkB, err := sb.GetAccountProofPublicKey()
+		verif_assume(err == nil)
+		wantOther, _ = pkB.Raw()
+	}
+	check := func(idx *metadataStoreIndex, how string) {
+		verif_assert(idx.ownAliasKeySent == aliasA, "C04.alias: own alias key is reported sent exactly when the history contains it")
+		verif_assert(verif_bytesEq(idx.otherAliasKey, wantOther), "C04.alias: the other side's alias key is the one in the history")
+	}
+	full := verif_logCopy(global)
+	verif_logPermute(full)
+	one := newMetadataIndex(ctx, g, mdA, sa)(g.PublicKey).(*metadataStoreIndex)
+	verif_assert(one.UpdateIndex(full, nil) == nil, "C04.alias: one-pass replica indexes the log")
+	check(one, "one pass")
+	part := verif_logView(full)
+	two := newMetadataIndex(ctx, g, mdA, sa)(g.PublicKey).(*metadataStoreIndex)
+	_ = two.UpdateIndex(part, nil)
+	verif_assert(two.UpdateIndex(full, nil) == nil, "C04.alias: two-batch replica indexes the completed log")
+	check(two, "two batches")
+	verif_assert(two.UpdateIndex(full, nil) == nil, "C04.alias: re-indexing succeeds")
+	check(two, "re-indexed")
+	verif_reach("C04.alias.ok")
+}
